@@ -605,7 +605,6 @@ UFNIA = Logic(name="UFNIA",
 """Non-linear integer arithmetic with uninterpreted sort and function
 symbols.""",
               integer_arithmetic=True,
-              integer_difference=True,
               linear=False,
               uninterpreted=True)
 
